@@ -10,6 +10,9 @@ import os
 
 MUTATORS = {"update", "append", "extend", "insert", "remove", "pop", "popitem", "clear", "setdefault", "sort", "reverse", "fill", "resize", "put", "itemset",
             "setfield", "setflags", "byteswap", "partition", "__setitem__", "__delitem__"}
+# library functions that write into their first argument (numpy.put(a, ...)), or do so when called with copy=False
+INPLACE_FUNCTIONS = {"put", "place", "putmask", "copyto", "fill_diagonal", "put_along_axis"}
+INPLACE_WHEN_COPY_FALSE = {"nan_to_num"}
 GLOBAL_DENY = {("numpy", "seterr"), ("numpy", "seterrcall"), ("numpy", "set_printoptions"), ("numpy", "setbufsize"), ("np", "seterr"), ("np", "set_printoptions"),
                ("warnings", "filterwarnings"), ("warnings", "simplefilter"), ("warnings", "resetwarnings"), ("random", "seed"), ("numpy.random", "seed"),
                ("sys", "setrecursionlimit"), ("os", "environ")}
@@ -93,12 +96,12 @@ class FunctionEffects(ast.NodeVisitor):
     def visit_Assign(self, node):
         for t in node.targets:
             self.target(t, node.value, node)
-        self.generic_visit(node.value)
+        self.visit(node.value)
 
     def visit_AnnAssign(self, node):
         if node.value is not None:
             self.target(node.target, node.value, node)
-            self.generic_visit(node.value)
+            self.visit(node.value)
 
     def target(self, t, value, node):
         if isinstance(value, ast.IfExp):
@@ -165,7 +168,7 @@ class FunctionEffects(ast.NodeVisitor):
         else:
             if self.param_reach(t.value) or base_name(t) in self.params:
                 self.flag(node, "augmented-assignment-through-parameter", ast.unparse(node))
-        self.generic_visit(node.value)
+        self.visit(node.value)
 
     def visit_Delete(self, node):
         for t in node.targets:
@@ -218,6 +221,11 @@ class FunctionEffects(ast.NodeVisitor):
         for kw in node.keywords:
             if kw.arg == "out" and not (isinstance(kw.value, ast.Constant) and kw.value.value is None):
                 self.flag(node, "out-keyword", ast.unparse(node)[:120])
+            if kw.arg == "copy" and isinstance(kw.value, ast.Constant) and kw.value.value is False and d is not None and d.rsplit(".", 1)[-1] in INPLACE_WHEN_COPY_FALSE \
+                    and any(self.param_reach(a) for a in node.args):
+                self.flag(node, "mutator-call-on-operand", ast.unparse(node)[:120])
+        if d is not None and "." in d and d.rsplit(".", 1)[-1] in INPLACE_FUNCTIONS and d.split(".")[0] in ("numpy", "np") and node.args and self.param_reach(node.args[0]):
+            self.flag(node, "mutator-call-on-operand", ast.unparse(node)[:120])
         self.generic_visit(node)
 
 
